@@ -294,6 +294,13 @@ pub fn leaf_texts(tier: &str) -> Vec<String> {
             vec!["1.0.4294967297", "1.1.0", "1.8589934593.0", "2.0.0", "1.0.0-9", "1.0.0-10", "1.0.0-1a", "1.0.1", "1.0.0", "1.0.1-0"],
             vec!["1.1.0"],
         ),
+        // bounds whose tags have three or four identifiers and share their first two, or their first
+        // and last (an order that looks at a fixed number of identifiers, or only at the ends, ties
+        // them; C07-8, C10-8)
+        "longtag" => (
+            vec!["1.0.0", "2.0.0", "1.0.0-a.0", "1.0.0-a.0.1", "1.0.0-a.0.2", "1.0.0-a.0.1.0", "1.0.0-a.1.1", "1.0.0-a.b.1"],
+            vec!["1.0.0-a.0.1"],
+        ),
         _ => (vec!["1.0.0", "2.0.0", "1.0.0-a", "2.0.0-0.a"], vec!["1.0.0", "2.0.0"]),
     };
     let mut out: Vec<String> = vec![];
@@ -354,7 +361,7 @@ pub fn leaf_texts(tier: &str) -> Vec<String> {
 /// three-alternative operands in every order (used as operands against every leaf, both sides;
 /// not closed under further operations)
 pub fn probe3_texts(tier: &str) -> Vec<String> {
-    if tier == "exotic" || tier == "tiny" || tier == "bits" || tier == "bits-all" {
+    if tier == "exotic" || tier == "tiny" || tier == "bits" || tier == "bits-all" || tier == "longtag" {
         return vec![];
     }
     let mut base: Vec<String> = vec![];
